@@ -108,6 +108,30 @@ def build_put_write(fns):
     return [sc]
 
 
+def build_verified_flag(fns):
+    """anywhere in the disk cache: an item is marked verified only after the crc32 of its file was computed in the same function
+    (a byte comparison of a sub-range is not a substitute), and a new item is created verified only where its bytes were just written"""
+    sc = smt.Script("c12_verified_flag_discipline")
+    n = 0
+    for name, f in fns.items():
+        if not re.search(r"^disk::|chunk_cache", name) and "disk" not in name:
+            continue
+        if not any(re.search(r"VerificationCell::<.*>::verify$", f.blocks[b][1].split("(")[0]) for b in f.order if not f.blocks[b][2]):
+            continue
+        g = modeb.CFG(f)
+        vf = g.blocks_calling(r"VerificationCell::<.*>::verify$")
+        if not vf:
+            continue
+        n += 1
+        crc = g.blocks_calling(r"crc32fast::hash$|crc32fast::Hasher|crc32_from_reader$")
+        short = name.split("::")[-1]
+        modeb.no_path_query(g, sc, "%s: an item is marked verified only after its checksum was computed" % short, [g.entry], vf, crc)
+        modeb.no_path_query(g, sc, "witness: %s reaches the verified mark" % short, [g.entry], vf, [], expect="sat", kind="witness")
+    if not n:
+        raise LookupError("no function marks a cache item verified")
+    return [sc]
+
+
 def _native(testfn):
     def run(model, fnd, prop):
         env = base_env()
@@ -128,5 +152,11 @@ SMT = [Q("c12_put_writes_before_commit", "put writes the file it commits; range 
          functions=["chunk_cache::disk::DiskCache::put_impl", "chunk_cache::disk::get_range_from_cache_file"], bounds="all CFG paths", solvers=("z3", "cvc5-bv"),
          replay=lambda m, f, p: (_native("reput_after_untracked_damage_returns_put_data") if "put:" in f.site else _native("planted_short_item_is_not_a_hit"))(m, f, p)),
        Q("c12_get_verify_before_use", "get: checksum before use, verified flag only after an equal checksum, mismatch -> removal", "chunk_cache", build_get,
-         functions=["chunk_cache::disk::DiskCache::get_impl"], bounds="all CFG paths", solvers=("z3", "cvc5-bv"))]
-
+         functions=["chunk_cache::disk::DiskCache::get_impl"], bounds="all CFG paths", solvers=("z3", "cvc5-bv")),
+       Q("c12_verified_flag_discipline", "an item is marked verified only after its crc32 was computed, in every function of the disk cache", "chunk_cache", build_verified_flag,
+         functions=["every function of chunk_cache::disk that calls VerificationCell::verify"], bounds="all CFG paths", solvers=("z3", "cvc5-bv"),
+         replay=_native("nested_put_does_not_bless_a_damaged_item"))]
+# get / put decrement the item count when they drop a damaged or superseded item: that cannot underflow (panic) only if the re-open
+# scan counted every item it tracks - the same solver obligation as under C13
+from props import c13 as _c13
+SMT += [q for q in _c13.SMT if q.name == "c13_reopen_scan_counts"]
